@@ -1,0 +1,53 @@
+//go:build verif
+
+// Machine-checked contracts for package db (comment-only; read by /verif's govc).
+
+package db
+
+// ---- the Reader interface as the query handler sees it (both readers are checked against it) -----------
+// A query name is a non-empty wire-format name; every walk returns a zone cut that is one, too.
+//@ func Reader.IsAuthoritative
+//@ trusted
+//@ requires len(q) >= 1 && loc != nil
+//@ ensures err == nil ==> len(zoneCut) >= 1
+//@ ensures err != nil ==> !ns && !auth
+
+//@ func Reader.FindAnswer
+//@ trusted
+//@ requires len(q) >= 1 && len(packedControlName) >= 1 && loc != nil && a != nil
+//@ modifies a
+//@ ensures a.MsgHdr == old(a.MsgHdr) && a.Question == old(a.Question) && a.Ns == old(a.Ns) && a.Extra == old(a.Extra) && a.Compress == old(a.Compress)
+//@ ensures len(a.Answer) >= old(len(a.Answer))
+//@ ensures !result1 ==> len(a.Answer) == old(len(a.Answer))
+
+//@ func Reader.FindLocation
+//@ trusted
+//@ requires len(qname) >= 1 && m != nil
+//@ ensures err != nil ==> ecs == nil && loc == nil
+//@ ensures ecs == nil || ecs == uf.ecsof(m)
+
+//@ ufun ecsof(int) int
+//@ ufun edns0of(int) int
+
+//@ func Reader.Close
+//@ trusted
+
+//@ func FindSOA
+//@ trusted
+//@ requires a != nil && len(zoneCut) >= 1
+//@ modifies a
+//@ ensures a.MsgHdr == old(a.MsgHdr) && a.Question == old(a.Question) && a.Answer == old(a.Answer) && a.Extra == old(a.Extra) && a.Compress == old(a.Compress)
+
+//@ func HasRecord
+//@ trusted
+//@ pure
+
+//@ func GetNs
+//@ trusted
+//@ requires len(q) >= 1
+
+//@ func AdditionalSectionForRecords
+//@ trusted
+//@ requires a != nil
+//@ modifies a
+//@ ensures a.MsgHdr == old(a.MsgHdr) && a.Question == old(a.Question) && a.Answer == old(a.Answer) && a.Ns == old(a.Ns) && a.Compress == old(a.Compress)
